@@ -22,6 +22,9 @@ func VerifH_C15_conn() {
 	c := vConnect()
 	vt, err := c.vTable("t", false)
 	symAssert(err == nil, "table-ok")
+	vt2, err := c.vTable("t2", false)
+	symAssert(err == nil, "table-ok")
+	began2 := false
 	sc := c.m.sc
 	var g vGhost
 	nextKey := int64(1)
@@ -90,22 +93,56 @@ func VerifH_C15_conn() {
 			_, err := vt.Insert(symSQLInt(nextKey), symSQLInt(nextKey*10), symSQLNull())
 			symAssert(err == nil, "insert-ok")
 			nextKey++
+			// the same statement stream also writes a second table of the connection:
+			// xBegin reaches it at its first write inside the transaction
+			if symParam("twotables", 1) == 1 && symChoice("second-table", 2) == 1 {
+				if !began2 {
+					symAssert(vt2.Begin() == nil, "begin-ok")
+					began2 = true
+				}
+				wt2, has2 := vWriteTimeOf(sc.ctx)
+				symAssert(has2 && wt2 == wt, "one-write-time-per-transaction-across-tables")
+				_, err := vt2.Insert(symSQLInt(nextKey), symSQLInt(1), symSQLNull())
+				symAssert(err == nil, "insert-ok")
+				nextKey++
+				// and back to the first table
+				wt3, has3 := vWriteTimeOf(sc.ctx)
+				symAssert(has3 && wt3 == wt, "one-write-time-per-transaction-across-tables")
+			}
 			if auto {
 				symAssert(vt.Sync() == nil, "sync-ok")
+				if began2 {
+					symAssert(vt2.Sync() == nil, "sync-ok")
+				}
 				symAssert(vt.Commit() == nil, "commit-ok")
+				if began2 {
+					symAssert(vt2.Commit() == nil, "commit-ok")
+					began2 = false
+				}
 			}
 		case 6: // COMMIT
 			if !g.inTxn {
 				continue
 			}
 			symAssert(vt.Sync() == nil, "sync-ok")
+			if began2 {
+				symAssert(vt2.Sync() == nil, "sync-ok")
+			}
 			symAssert(vt.Commit() == nil, "commit-ok")
+			if began2 {
+				symAssert(vt2.Commit() == nil, "commit-ok")
+				began2 = false
+			}
 			g.inTxn = false
 		case 7: // ROLLBACK
 			if !g.inTxn {
 				continue
 			}
 			symAssert(vt.Rollback() == nil, "rollback-ok")
+			if began2 {
+				symAssert(vt2.Rollback() == nil, "rollback-ok")
+				began2 = false
+			}
 			g.inTxn = false
 		}
 		// outside a transaction the connection carries a write time only if the user set one
